@@ -49,7 +49,9 @@ func checkC05(c *Ctx) {
 				c.c01Sibling(fo)
 			}
 		}
-	}, func(o *coreObl) (string, bool) { return "R05.7", o.Rule == "R01.2" || o.Rule == "R01.3" || o.Rule == "R01.4" })
+	}, func(o *coreObl) (string, bool) {
+		return "R05.7", o.Rule == "R01.2" || o.Rule == "R01.3" || o.Rule == "R01.4"
+	})
 }
 
 type seqEv struct {
